@@ -139,7 +139,7 @@ def FS.iterate (f : FS) : List C × FS :=
 the copy's current index is the smallest index -/
 def FS.copyF (f : FS) (order : List Name) : Except Err FS :=
   match f.indices with
-  | [] => .error .key
+  | [] => .ok (newFS f.index)      -- no index left (everything was deleted): an empty copy at the current index
   | i0 :: _ =>
     let g0 := newFS i0
     let r := f.indices.foldl (fun (acc : Except Err FS) ind =>
